@@ -967,7 +967,7 @@ func (g *Gen) History(n int) []string {
 	return ops
 }
 
-// PureHistory draws n units of the property's discipline without DHCP offers: frame (R N), purge, name update, Capture, Release
+// PureHistory draws n units of the property's discipline: frame (R N), purge, name update, DHCP offer / update, Capture, Release
 // (no DHCP offers, so the DHCP path of Notify stays silent; the t6 histories cover it).
 func (g *Gen) PureHistory(n int) []string {
 	g.now = 0
@@ -975,12 +975,19 @@ func (g *Gen) PureHistory(n int) []string {
 	for i := 0; i < n; i++ {
 		r := g.Rng.Intn(100)
 		switch {
-		case r < 70:
+		case r < 66:
 			ops = append(ops, g.RxOp(), "N")
+		case r < 70: // a DHCP frame without host (source 0.0.0.0): the DHCP path of Notify
+			ops = append(ops, RxTok(g.clientMAC(), "4", g.U.IP4s[6], nil, 3, g.advance()), "N")
 		case r < 90:
 			ops = append(ops, fmt.Sprintf("P,%d", g.advance()))
-		case r < 97: // a learned name through one of the five Update*Name methods
+		case r < 94: // a learned name through one of the five Update*Name methods
 			ops = append(ops, fmt.Sprintf("M,%d,%s,%s", g.Rng.Intn(5), IPTok(g.anyIP()), g.U.Names[g.Rng.Intn(len(g.U.Names))]))
+		case r < 96: // DHCP: the server records an offer, the client's request is acknowledged
+			ops = append(ops, fmt.Sprintf("O,%s,%s,%s", MacTok(g.clientMAC()), IPTok(g.anyIP()), g.U.Names[g.Rng.Intn(len(g.U.Names))]))
+		case r < 98:
+			m := g.clientMAC()
+			ops = append(ops, fmt.Sprintf("U,%s,%s,%s,%d", MacTok(m), IPTok(g.ip4For(m)), g.U.Names[g.Rng.Intn(len(g.U.Names))], g.advance()))
 		case r < 99:
 			ops = append(ops, "C,"+MacTok(g.clientMAC()))
 		default:
